@@ -241,6 +241,8 @@ func main() {
 		cmdLspCheck(os.Args[2:])
 	case "nav-check":
 		cmdNavCheck(os.Args[2:])
+	case "cli-check":
+		cmdCliCheck(os.Args[2:])
 	case "conc":
 		cmdConc(os.Args[2:])
 	case "store-replay":
